@@ -1372,6 +1372,26 @@ def conditioning(ctx, yaw, root) -> None:
         else:
             continue
         break
+    # read-only use of a product (normalising it, asking for covariance / error / correlation, selecting bins, writing it
+    # out) must leave its jackknife samples what they were: sample k = the statistic without patch k
+    for label, obj in (("HistData.from_catalog", histh), ("HistData.from_catalog", hist)):
+        d0, s0 = np.array(obj.data, dtype=np.float64), np.array(obj.samples, dtype=np.float64)
+        uses = dict(normalised=lambda o: o.normalised(), covariance=lambda o: o.covariance, error=lambda o: o.error,
+                    correlation=lambda o: o.correlation, bins=lambda o: o.bins[0:2], to_files=lambda o: o.to_files(root / "ro_hist"))
+        for use, fn in uses.items():
+            ctx.evaluated(1, ("read_only_use", label, use))
+            with np.errstate(all="ignore"), warnings.catch_warnings():
+                warnings.simplefilter("ignore")
+                try:
+                    fn(obj)
+                except Exception as exc:  # noqa: BLE001
+                    ctx.violation(f"C03|{label}|read_only_use:{use}|raises_{type(exc).__name__}", dict(error=repr(exc)[:200]))
+                    continue
+            if not (np.array_equal(np.asarray(obj.data, dtype=np.float64), d0, equal_nan=True)
+                    and np.array_equal(np.asarray(obj.samples, dtype=np.float64), s0, equal_nan=True)):
+                ctx.violation(f"C03|{label}|read_only_use:{use}|samples_modified",
+                              dict(use=use, data_before=d0.tolist(), data_after=np.asarray(obj.data).tolist()))
+                break
     eps = np.finfo(np.float64).eps
     for kind, name, obj, smp in products:
         smp = np.asarray(obj.samples, dtype=np.float64)
